@@ -32,13 +32,26 @@ def cases(thorough):
             yield {"field": "methodN", "byte": b, "pos5": pos5, "kind": "file", "level": 2, "member": 1}
 
 
+def long_cases(thorough):
+    lens = (200, 254, 255, 256, 257, 258, 300, 511, 512, 513, 1000, 1023, 1024, 1025, 4000) + ((8191, 8192, 8193, 30000) if thorough else ())
+    for which in ("name", "path", "pathparts", "target", "user", "group"):
+        for L in lens:
+            for at in sorted(set([0, 100, 254, 255, 256, 257, -2, -1])):
+                if at >= L:
+                    continue
+                for b in ((0x1B, 0x07, 0x7F, 0x80, 0xFF) if thorough else (0x1B, 0x9B)):
+                    for member in (0, 1):
+                        yield {"field": "long", "which": which, "len": L, "at": at, "byte": b, "kind": "link" if which == "target" else "file", "level": 2, "member": member}
+
+
 def run(ctx):
     cliprop.run_space(ctx, "props.cli_c18", "fields", cases(ctx.thorough), chunk=16)
+    cliprop.run_space(ctx, "props.cli_c18", "long", long_cases(ctx.thorough), chunk=16)
     ctx.assumptions += ["member data is printable so that the whole of stdout and stderr can be judged; the tool is the real main() of src/ linked into the batch runner (ASan/UBSan build)"]
     return ctx.finish(
         rule="for each header field that can reach the terminal (level-0/1 in-header name, 0x01 name, 0x02 path components, link target in the name and through the path header, the free method byte of the first member, all five method bytes of a later member, user and group names): "
              "each byte value 0x01..0xFF (quick: all C0 controls, DEL, 0x80, 0x9B, 0xA0, 0xFF and separators) at first/middle/last position, as file, directory and link entry, as first and as last of three members; x 12 modes {l, lv, v, vv, t, x, xn, xq0, xq1, xq2, p, pq}. "
-             "Oracle: every byte of stdout and stderr is in {0x20..0x7E, LF, CR, TAB}. states = distinct outputs. non-trivial = distinct cases",
+             "space 'long': names, path components, link targets, user and group names of 200..4000 (thorough 30000) bytes, lengths around 255/256, 511/512, 1023/1024, with a hostile byte at offsets 0, 100, 254..257 and at the end. Oracle: every byte of stdout and stderr is in {0x20..0x7E, LF, CR, TAB}. states = distinct outputs. non-trivial = distinct cases",
         replay_fn=lambda rep: cliprop.replay_case(rep))
 
 
